@@ -35,6 +35,13 @@ add("C17", "exploration", "runtime monitoring: key-by-key comparison of every pa
     "Partition chains of length 1-5 with overlapping keys, both staging kinds, three parent provenances and three back-ends; every key is loaded on its own and compared with own-keys-win overlay; body counts show each level is memoized.",
     "Overlay closed form (dict.update in chain order) and vf.domain.eq are trusted.", "DESIGN.md §4 C17")
 
+add("C04", "exploration", "runtime monitoring: arg_hash, hit/miss (recorder + unique result serials) and received values of every call presentation, against an independent implementation of the documented algorithm and metamorphic relations",
+    "Thousands of call families over generated signatures: every equivalent presentation must produce the documented SHA-256 and be served the first presentation's result; every near-miss must produce a different key and run the body; the body's received values are compared with the arguments passed.",
+    "vf.models.spec_arg_hash (written from the ArgumentHasher docstring and docs) is trusted; canonical JSON via json.dumps(sort_keys, compact separators).", "DESIGN.md §4 C04")
+add("C11", "exploration", "runtime monitoring: field-wise comparison of decode(encode(m)), recomputed argument hash, JSON stability, hand-written wire-schema validator, committed golden documents",
+    "Random mementos over the whole argument domain are round-tripped through json text; each document is validated structurally; 60 golden documents written by the pinned tree must keep decoding to their recorded summaries.",
+    "Structural equality of references; golden documents were produced by the pinned commit 6149a38.", "DESIGN.md §4 C11")
+
 NOT_BUILT = "check not built yet in this round (design in DESIGN.md §4); will be claimed once its monitor exists"
 
 
